@@ -18,8 +18,9 @@ RULE = ("CubicSpline at Q, exact: n=3..12 (thorough ..40), axis kinds incl. mesh
         "with the exact run of the same float inputs under a generous conditioning-scaled tolerance (a test, not a bound). "
         "non-trivial = every case (all have >= 2 intervals)")
 PARTIAL = ["no rounding bound is proved for the spline (it depends on the conditioning of the system): the f64 comparison is a test with "
-           "tolerance 2^-26 * scale", "periodic boundary: theorems in Props/C07; here it is covered by the exact oracle and correspondence",
-           "lanes: single-lane theorems; C08 carries them to every lane"]
+           "tolerance 2^-26 * scale", "periodic boundary: C2 at the interior knots and matching S', S'' at the ends are C03_periodic / "
+           "C03_periodic3 (unique: C03_periodic_unique); evaluation and wrapping in Props/C07",
+           "lanes: single-lane theorems; C08_spline_build_lanes carries them to every lane"]
 ASSUMPTIONS = ["axis length < 2^64"]
 
 SB = ["nak", "nat", "cla", "fd", "sd"]
